@@ -573,6 +573,67 @@ func (e *Engine) iv(v ssa.Value, depth int) (lo, hi int64, ok bool) {
 		if b, ok := x.Call.Value.(*ssa.Builtin); ok && b.Name() == "len" {
 			return 0, bigLen, true
 		}
+		if b, ok := x.Call.Value.(*ssa.Builtin); ok && (b.Name() == "min" || b.Name() == "max") && isInt(x.Type()) {
+			// min: the result is below every argument, and above the smallest lower bound when all are known
+			// max: dually
+			const inf = int64(1) << 62
+			isMin := b.Name() == "min"
+			allKnown := true
+			best, worst := inf, inf // min: best = smallest known upper bound, worst = smallest lower bound
+			if !isMin {
+				best, worst = -inf, -inf // max: best = largest known lower bound, worst = largest upper bound
+			}
+			anyKnown := false
+			for _, a := range x.Call.Args {
+				l, h, ok := e.iv(a, depth+1)
+				if !ok {
+					allKnown = false
+					continue
+				}
+				anyKnown = true
+				if isMin {
+					if h < best {
+						best = h
+					}
+					if l < worst {
+						worst = l
+					}
+				} else {
+					if l > best {
+						best = l
+					}
+					if h > worst {
+						worst = h
+					}
+				}
+			}
+			if anyKnown {
+				if isMin {
+					lo, hi = -inf, best
+					if allKnown {
+						lo = worst
+					}
+				} else {
+					lo, hi = best, inf
+					if allKnown {
+						hi = worst
+					}
+				}
+				return lo, hi, true
+			}
+		}
+		if f := x.Call.StaticCallee(); f != nil && f.Pkg != nil && f.Pkg.Pkg.Path() == "math/bits" {
+			switch f.Name() {
+			case "LeadingZeros8", "TrailingZeros8", "OnesCount8", "Len8":
+				return 0, 8, true
+			case "LeadingZeros16", "TrailingZeros16", "OnesCount16", "Len16":
+				return 0, 16, true
+			case "LeadingZeros32", "TrailingZeros32", "OnesCount32", "Len32":
+				return 0, 32, true
+			case "LeadingZeros64", "TrailingZeros64", "OnesCount64", "Len64", "LeadingZeros", "TrailingZeros", "OnesCount", "Len":
+				return 0, 64, true
+			}
+		}
 	case *ssa.Parameter:
 		f := x.Parent()
 		if e.inMod(f) && e.knownCallers(f) {
